@@ -1229,6 +1229,7 @@ func checkC11(c *Check) {
 	c11R2(c, a)
 	c11R3(c, a, g, ackHull)
 	c11R4(c, a, g)
+	c11Extra(c)
 }
 
 func c11ivKey(iv c11iv) string {
